@@ -149,6 +149,26 @@ func scenario(t *testing.T, name, role string) {
 			})
 			at(&wg, T/2, func() { _ = r.S.Stop() })
 			at(&wg, T/2+20*time.Millisecond, func() { r.S.OnChangeState(utils.EventLogout, func() bool { return true }) })
+		case "sessions_sharing_an_unmarshaller": // two sessions of one application decode at the same instants with the ONE unmarshaller it installed in both
+			r2, err := sess.NewRig(sess.Cfg{Role: role, HbMin: 1, HbMax: 60, HbCfg: 1, EncCfg: "0", CloseMs: 500, Buf: 10})
+			if err != nil {
+				t.Fatalf("DRIVER-ERROR %v", err)
+			}
+			_ = r2.S.Run()
+			synctest.Wait()
+			var pmu2 sync.Mutex
+			pseq2 := 0
+			logon()
+			inbound(r2, &pseq2, &pmu2, "logon", nil)
+			synctest.Wait()
+			for k := 0; k < 10; k++ {
+				d := time.Duration(k*20) * time.Millisecond
+				at(&wg, d, func() { inbound(r, &pseq, &pmu, "testreq", []int{70}) })
+				at(&wg, d, func() { inbound(r2, &pseq2, &pmu2, "testreq", []int{71}) })
+				at(&wg, d, func() { inbound(r, &pseq, &pmu, "hbt", nil) })
+				at(&wg, d, func() { inbound(r2, &pseq2, &pmu2, "resend", nil) })
+			}
+			defer r2.Close(1)
 		default:
 			t.Fatalf("DRIVER-ERROR unknown scenario %s", name)
 		}
